@@ -165,7 +165,9 @@ impl super::Authorizer {
 
             for fact in &facts {
                 let fact = proto_fact_to_token_fact(fact)?;
-                //let fact = Fact::convert_from(&fact, &symbols)?.convert(&mut authorizer.symbols);
+                // the snapshot comes from outside: a generated fact must only
+                // reference symbols the snapshot declares
+                crate::builder::Fact::convert_from(&fact, &authorizer.symbols)?;
                 authorizer.world.facts.insert(&origin, fact);
             }
         }
